@@ -300,16 +300,22 @@ Qed.
 
 Section Print.
 Variable R : list import -> str.
+Variable NC : str -> bool.
 
-Lemma pp_ok c : forall bs, blocks_ok bs -> exists t, pp R c bs = Ok t.
+Lemma pp_from_ok c : forall bs prev, blocks_ok bs -> exists t, pp_from R NC c prev bs = Ok t.
 Proof.
-  induction bs as [|b bs IH]; intros Hb; cbn [pp]; [eauto|].
+  induction bs as [|b bs IH]; intros prev Hb; cbn [pp_from]; [eauto|].
   assert (exists t, pp_block R c b = Ok t /\ blocks_ok bs) as [t [Et Hb']].
   { destruct b as [ss [o|]|ib]; cbn [pp_block]; try (eexists; split; [reflexivity|exact Hb]).
     unfold blocks_ok in Hb. cbn in Hb. inversion Hb; subst.
     unfold pp_iblock. rewrite unique_as_not_conflicting; [|assumption]. eexists. split; [reflexivity|assumption]. }
-  rewrite Et. destruct (IH Hb') as [t' Et']. rewrite Et'. eauto.
+  rewrite Et.
+  match goal with |- context [pp_from R NC c ?p bs] => destruct (IH p Hb') as [t' Et'] end.
+  rewrite Et'. eauto.
 Qed.
+
+Lemma pp_ok c : forall bs, blocks_ok bs -> exists t, pp R NC c bs = Ok t.
+Proof. intros bs Hb. unfold pp. apply pp_from_ok. exact Hb. Qed.
 
 (* C03 no_internal_error, on abstract blocks: with the F23 F24 F35 F37 repairs, from a block list as the
    normalising first pass leaves it (non-empty, import blocks end with a newline and do not overlap, no import set
@@ -318,7 +324,7 @@ Qed.
 Theorem no_internal_error c fl known mand bs ms us :
   f23 c = true -> f24 c = true -> f35 c = true -> f37 c = true ->
   inv bs -> ok_seq (iblocks bs) -> Forall (fun u => is_star (snd u) = false) us ->
-  exists bs' log t, fix_blocks c fl known mand bs ms us = Ok (bs', log) /\ pp R c bs' = Ok t.
+  exists bs' log t, fix_blocks c fl known mand bs ms us = Ok (bs', log) /\ pp R NC c bs' = Ok t.
 Proof.
   intros H23 H24 H35 H37 [Hne [Hb Hid]] Hok Hus. unfold fix_blocks.
   assert (exists bs1, (if remove_unused fl then remove_all c bs us else Ok bs) = Ok bs1 /\ inv bs1) as [bs1 [E1 Hinv1]].
@@ -384,18 +390,34 @@ Qed.
 
 (* F38: when the whole first block is prologue, what is printed in front of the new import block is empty or
    ends with a newline: the new block starts a line *)
+Lemma pp_other_one c ss : pp R NC c [Other ss None] = Ok (stmts_text ss ++ []).
+Proof. unfold pp. cbn [pp_from pp_block]. rewrite !andb_false_r. reflexivity. Qed.
+
+Lemma pp_other_nl c ss : pp R NC c [Other ss None; nl_block] = Ok (stmts_text ss ++ [c_nl] ++ []).
+Proof. unfold pp, nl_block. cbn [pp_from pp_block]. rewrite !andb_false_r. reflexivity. Qed.
+
 Theorem new_block_starts_a_line c ss rest bs' nb :
   f38 c = true -> first_nonprologue c ss false = None ->
   insert_new c (Other ss None :: rest) = Ok (bs', nb) ->
-  exists pro t, bs' = pro ++ Imps nb :: sep_block :: rest /\ pp R c pro = Ok t /\ (t = [] \/ ends_nl t = true).
+  exists pro t, bs' = pro ++ Imps nb :: sep_block :: rest /\ pp R NC c pro = Ok t /\ (t = [] \/ ends_nl t = true).
 Proof.
   intros H38 Hf. unfold insert_new. rewrite Hf, H38. cbn [andb]. intros H; inversion H; subst. clear H.
   destruct (unterminated ss) eqn:Eu.
-  - exists [Other ss None; nl_block]. eexists. split; [reflexivity|]. split; [cbn; reflexivity|].
+  - exists [Other ss None; nl_block]. eexists. split; [reflexivity|]. split; [apply pp_other_nl|].
     right. apply ends_nl_app. reflexivity.
-  - exists [Other ss None]. eexists. split; [reflexivity|]. split; [cbn; reflexivity|].
+  - exists [Other ss None]. eexists. split; [reflexivity|]. split; [apply pp_other_one|].
     rewrite app_nil_r. unfold unterminated in Eu. destruct (stmts_text ss) as [|c0 s]; [left; reflexivity|right].
     cbn [is_nil negb andb] in Eu. destruct (ends_nl (c0 :: s)); [reflexivity|discriminate].
+Qed.
+
+(* F45: an import block that continues a line ending in a backslash never prints the empty string *)
+Theorem emptied_block_after_backslash c b rest t :
+  f45 c = true -> pp_from R NC c true (Imps b :: rest) = Ok t -> t <> [].
+Proof.
+  intros H45. cbn [pp_from pp_block]. destruct (pp_iblock R c b) as [t0|]; [|discriminate].
+  rewrite H45. destruct t0 as [|x t0]; cbn;
+    (match goal with |- context [pp_from R NC c ?p rest] => destruct (pp_from R NC c p rest) as [s|] end);
+    intros H; inversion H; discriminate.
 Qed.
 End Print.
 
@@ -556,16 +578,17 @@ Qed.
 
 Section ToolFacts.
 Variable R : list import -> str.
+Variable NC : str -> bool.
 Variable parse : str -> list block.
 Variable scan : str -> bool -> list (nat * str) * list (nat * import).
 
 (* second-pass input = first-pass output: the analysis and the edit see exactly the text the first pass printed *)
 Theorem tidy_analyses_first_pass_output c fl known mand bs0 t1 :
-  pp R c bs0 = Ok t1 ->
-  tidy R parse scan c fl known mand bs0 =
+  pp R NC c bs0 = Ok t1 ->
+  tidy R NC parse scan c fl known mand bs0 =
     match fix_blocks c fl known mand (parse t1) (fst (scan t1 (remove_unused fl))) (snd (scan t1 (remove_unused fl))) with
     | Err e => Err e
-    | Ok (bs2, _) => pp R c bs2
+    | Ok (bs2, _) => pp R NC c bs2
     end.
 Proof.
   intros H. unfold tidy. rewrite H. destruct (scan t1 (remove_unused fl)) as [ms us]. reflexivity.
@@ -579,20 +602,24 @@ Definition block_equiv (b b' : block) : Prop :=
   | _, _ => False
   end.
 
-Lemma pp_equiv c l l' : Forall2 block_equiv l l' -> pp R c l = pp R c l'.
+Lemma pp_from_equiv c l l' : Forall2 block_equiv l l' -> forall prev, pp_from R NC c prev l = pp_from R NC c prev l'.
 Proof.
-  intros H. induction H as [|b b' l l' Hb H IH]; [reflexivity|]. cbn [pp]. rewrite IH.
-  assert (pp_block R c b = pp_block R c b') as E.
-  { destruct b as [ss o|x], b' as [ss' o'|y]; cbn [block_equiv] in Hb; try tauto; [apply Hb|].
-    destruct Hb as [E1 [E2 E3]]. cbn [pp_block]. unfold pp_iblock. rewrite E1, E2, E3. reflexivity. }
-  rewrite E. reflexivity.
+  intros H. induction H as [|b b' l l' Hb H IH]; intros prev; [reflexivity|]. cbn [pp_from].
+  assert (pp_block R c b = pp_block R c b' /\
+          (match b with Imps _ => true | Other _ _ => false end) = (match b' with Imps _ => true | Other _ _ => false end)) as [E E2].
+  { destruct b as [ss o|x], b' as [ss' o'|y]; cbn [block_equiv] in Hb; try tauto; [split; [apply Hb|reflexivity]|].
+    destruct Hb as [E1 [E2 E3]]. split; [|reflexivity]. cbn [pp_block]. unfold pp_iblock. rewrite E1, E2, E3. reflexivity. }
+  rewrite E, E2. destruct (pp_block R c b') as [t0|]; [|reflexivity]. rewrite IH. reflexivity.
 Qed.
+
+Lemma pp_equiv c l l' : Forall2 block_equiv l l' -> pp R NC c l = pp R NC c l'.
+Proof. intros H. unfold pp. apply pp_from_equiv. exact H. Qed.
 
 (* reformat is a fixed point whenever the statement splitter re-finds, in the printed text, blocks that print
    alike (oracle_compositional of DESIGN C03; evaluated on every case by the harness: the second pass of tidy
    decomposes the first pass's output) *)
 Theorem reformat_fixed_point_open c bs0 t :
-  reformat R c bs0 = Ok t -> Forall2 block_equiv (parse t) bs0 -> reformat R c (parse t) = Ok t.
+  reformat R NC c bs0 = Ok t -> Forall2 block_equiv (parse t) bs0 -> reformat R NC c (parse t) = Ok t.
 Proof.
   unfold reformat. intros H He. rewrite (pp_equiv c _ _ He). exact H.
 Qed.
